@@ -36,6 +36,8 @@ static void CAT(stub_call_python_, LIBID)(struct _cffi_externpy_s *e, char *args
 PyMODINIT_FUNC CAT(PyInit_lib, LIBID)(void)
 {
     verif_event("MODINIT %d %d", LIBID, verif_tid());
+    if (verif_modinit_fails(LIBID))
+        return (PyObject *)0;        /* exception set, _cffi_exports[] never filled in */
     _cffi_exports[_CFFI_CPIDX] = (void *)CAT(stub_call_python_, LIBID);
     return (PyObject *)0;
 }
@@ -54,6 +56,29 @@ int CAT(lib_f_, LIBID)(int a0)
   *(int *)(p + 0) = a0;
   _cffi_call_python(&_cffi_externpy__f, p);
   return *(int *)p;
+}
+
+/* an extern "Python" function returning a 24-byte struct (audit gap 5: the zeroing must cover
+   size_of_result bytes, whatever the type).  Instead of the struct this wrapper returns what it
+   found in the result buffer: 0 = all 24 bytes zero, 1 = the 24 bytes the stub function writes
+   (0x11), 2 = anything else (e.g. part of the 0x55 pre-fill left). */
+struct CAT(big_, LIBID) { long a, b, c; };
+static struct _cffi_externpy_s _cffi_externpy__g =
+  { "lib" STR(LIBID) ".g", (int)sizeof(struct CAT(big_, LIBID)), 0, 0 };
+
+int CAT(lib_g_, LIBID)(int a0)
+{
+  char a[24];
+  char *p = a;
+  int i, zero = 1, full = 1;
+  memset(a, 0x55, sizeof a);
+  *(int *)(p + 0) = a0;
+  _cffi_call_python(&_cffi_externpy__g, p);
+  for (i = 0; i < 24; i++) {
+    if (p[i] != 0) zero = 0;
+    if (p[i] != 0x11) full = 0;
+  }
+  return zero ? 0 : full ? 1 : 2;
 }
 
 int CAT(lib_start_, LIBID)(void)
